@@ -41,6 +41,7 @@ def gen_env_cfg(rng, *, multi=None, big=False, padding=None, positive=True):
         "builder": rng.choice(BUILDERS),
         "features": gen_features(rng),
         "reward": rng.choice(["makespan", "idle"]),
+        "reward_by_default": rng.random() < 0.5,  # makespan reward through the environment's default argument (a shared object)
         "updater": None if rng.random() < 0.5 else {"rm": rng.random() < 0.5, "rj": rng.random() < 0.5},
         "filter": rng.choice(["default", "dominated", "none"]),
         "use_padding": (rng.random() < 0.8) if padding is None else padding,
@@ -89,7 +90,7 @@ def gen_env_ops(rng, n, *, episodes=None, p_invalid=0.0, p_reset=0.0):
                 ops.append(["env_reset"])
                 k = 0
                 continue
-            ops.append(["env_step", rng.randrange(64), rng.randrange(64), int(rng.random() < 0.3), int(rng.random() < 0.6)])
+            ops.append(["env_step", rng.randrange(64), rng.randrange(64), int(rng.random() < 0.3), int(rng.random() < 0.6), rng.randrange(4)])
             k += 1
     return ops
 
@@ -147,9 +148,10 @@ def env_kwargs(cfg):
 
     kw = {
         "feature_observer_configs": feature_configs(cfg["features"]),
-        "reward_function_config": DispatcherObserverConfig(class_type=MakespanReward if cfg["reward"] == "makespan" else IdleTimeReward),
         "use_padding": cfg["use_padding"],
     }
+    if not (cfg["reward"] == "makespan" and cfg.get("reward_by_default")):
+        kw["reward_function_config"] = DispatcherObserverConfig(class_type=MakespanReward if cfg["reward"] == "makespan" else IdleTimeReward)
     if cfg.get("updater") is not None:
         kw["graph_updater_config"] = DispatcherObserverConfig(
             class_type=ResidualGraphUpdater,
@@ -271,7 +273,14 @@ class EnvWorld:
         act = (j, -1) if (minus1 and len(ms) == 1) else (j, mm)
         return (j, p, mm, act)
 
-    def step(self, j, p, mm, act):
+    def step(self, j, p, mm, act, form=0):
+        # the same decision in the forms an agent may hand over: tuple of ints, list, numpy array, numpy scalars
+        if form == 1:
+            act = [int(act[0]), int(act[1])]
+        elif form == 2:
+            act = np.array([act[0], act[1]], dtype=np.int64)
+        elif form == 3:
+            act = (np.int32(act[0]), np.int64(act[1]))
         try:
             out = self.env.step(act)
         except Exception as e:  # noqa: BLE001
@@ -487,7 +496,9 @@ def execute_env_case(case, ctx, oracles=("contract",)):
                 ctx.event(i, kind, "noop")
                 continue
             j, p, mm, act = r
-            out = w.step(j, p, mm, act)
+            out = w.step(j, p, mm, act, op[5] if len(op) > 5 else 0)
+            if len(op) > 5 and op[5] >= 2:
+                ctx.probe("numpy_action")
             if w.dead:
                 return w
             obs, reward, done, truncated, info = out
